@@ -42,12 +42,12 @@ LineText(l) ==
     [] l.kind = "near" -> <<107, 61, 97, 32, 118, 49>>            \* "k=a v1": one character short of a match
 
 \* the row a table variant extracts: <<admitted, k, v>>
-\*   "plain": both nullable;  "knn": k NOT NULL;  "vdef": v INT DEFAULT 7
+\*   "plain": both nullable;  "knn": k NOT NULL;  "vdef": v INT DEFAULT 7;  "bothnn": k NOT NULL and v NOT NULL
 RowOf(tdef, l) ==
   LET k == IF l.kind = "kv" THEN l.k ELSE Null
       v0 == IF l.kind = "kv" THEN l.v ELSE Null
       v == IF tdef = "vdef" /\ IsNull(v0) THEN IntV(7) ELSE v0
-      admitted == (~IsNull(k) \/ ~IsNull(v)) /\ (tdef = "knn" => ~IsNull(k))
+      admitted == (~IsNull(k) \/ ~IsNull(v)) /\ (tdef \in {"knn", "bothnn"} => ~IsNull(k)) /\ (tdef = "bothnn" => ~IsNull(v))
   IN <<admitted, k, v>>
 
 MainEnv(tdef, l) ==
